@@ -209,7 +209,10 @@ theorem c01_nondeterminism_sites :
     Facts.wallClockSites = [("x/beacon/keeper/msg_server.go", "msgServer.RecordBeaconTimestamp"), ("x/enterprise/abci.go", "BeginBlocker")] ∧
     Facts.randSites = [] ∧ Facts.goStmtSites = [] ∧
     Facts.mapRangeSites = [("app/app.go", "BlockedAddresses"), ("app/app.go", "GetMaccPerms"),
-      ("x/beacon/ante/ante.go", "checkBeaconMaxSlots"), ("x/wrkchain/ante/ante.go", "checkWrkChainMaxSlots")] := by
+      ("x/beacon/ante/ante.go", "checkBeaconMaxSlots"), ("x/wrkchain/ante/ante.go", "checkWrkChainMaxSlots")] ∧
+    -- every early exit of a loop over a map is the same error: the result code cannot depend on the iteration order
+    Facts.mapRangeExits = [("x/beacon/ante/ante.go", "checkBeaconMaxSlots", "return ErrExceedsMaxStorage"),
+      ("x/wrkchain/ante/ante.go", "checkWrkChainMaxSlots", "return ErrExceedsMaxStorage")] := by
   decide
 
 end C01
